@@ -146,7 +146,7 @@ class Ctx:
         return out
 
     # ------------------------------------------------------------------ harness
-    def drv(self, mode, infile=None, outfile=None, args=None, timeout=1800, race=False, env_extra=None):
+    def drv(self, mode, infile=None, outfile=None, tracefile=None, args=None, timeout=1800, race=False, env_extra=None):
         """Run the harness in <mode>.  Returns parsed JSON summary printed on the last stdout line."""
         exe = self.build_race_harness() if race else self.build_harness()
         env = dict(os.environ)
@@ -158,6 +158,8 @@ class Ctx:
             env["VERIF_IN"] = infile
         if outfile:
             env["VERIF_OUT"] = outfile
+        if tracefile:
+            env["VERIF_TRACE_OUT"] = tracefile
         if args:
             env["VERIF_ARGS"] = json.dumps(args)
         if env_extra:
@@ -175,6 +177,11 @@ class Ctx:
             raise Infra("harness mode %s printed no summary:\n%s\n%s" % (mode, p.stdout[-2000:], p.stderr[-2000:]))
         res = json.loads(lines[-1])
         res["_wall"] = time.time() - t
+        # mismatches the harness found by itself are violations observed on the real code
+        if outfile and os.path.exists(outfile) and not getattr(self, "_no_auto_mm", False):
+            for m in read_ndjson(outfile):
+                if "shape" in m:
+                    self.violation(m["shape"], m["what"], m.get("case"), m.get("site", ""))
         log("[drv] %-22s %.1fs %s" % (mode, res["_wall"], {k: v for k, v in res.items() if k in ("cases", "mismatches", "traces", "events", "runs")}))
         return res
 
@@ -186,7 +193,7 @@ class Ctx:
         return d
 
     def tlc(self, module, cfg, workers=None, heap="2g", timeout=900, simulate=None, depth=None,
-            extra=None, cwd_files=None, env_extra=None, dump_json=False, dump_path=None, label=None, deadlock=None, coverage=False):
+            extra=None, cwd_files=None, env_extra=None, max_set=None, dump_json=False, dump_path=None, label=None, deadlock=None, coverage=False):
         """Run TLC.  Returns dict(ok, generated, distinct, violated, out, lines(json objects printed))."""
         d = self.spec_copy()
         if cwd_files:
@@ -200,7 +207,10 @@ class Ctx:
         os.makedirs(jtmp, exist_ok=True)
         cmd = ["java", "-Xmx" + heap, "-Xss64m", "-XX:+UseParallelGC", "-XX:ParallelGCThreads=4",
                "-Djava.io.tmpdir=" + jtmp, "-cp", TLA_CP,
-               "tlc2.TLC", "-noGenerateSpecTE", "-maxSetSize", "8000000", "-metadir", meta, "-workers", w, "-config", cfg]
+               "tlc2.TLC", "-noGenerateSpecTE", "-metadir", meta, "-workers", w, "-config", cfg]
+        if max_set:
+            # only where an Init set is larger than TLC's default bound of 10^6 (it slows other runs down a lot)
+            cmd += ["-maxSetSize", str(max_set)]
         if simulate:
             cmd += ["-simulate", simulate]
         if depth:
